@@ -168,6 +168,19 @@ def rule_fail_unsent(ctx, rule):
                             settled = True
                 if not settled and p.outcome == 'return':
                     ok, detail = False, 'a frame taken from the %s keeps a pending sent future' % what
+                # most frames have no sent future at all: it is looked at only behind a None test
+                known_set = False
+                for e in p.events:
+                    if e.seq <= ev.seq:
+                        continue
+                    if e.kind == 'cond' and e.data['key'][0] == 'isnone' and strip_epoch(e.data['key'][1]) == fut:
+                        known_set = e.data['value'] is False
+                    if e.kind == 'call' and e.data.get('recv') is not None and \
+                            strip_epoch(e.data['recv'].term) == fut and not known_set:
+                        ok, detail = False, ('%s() is called on the sent future of a frame taken from the %s without '
+                                             'a None test: for a frame that has none the drain raises and the close '
+                                             'sequence stops there' % (e.data.get('name'), what))
+                        break
         if n_deq == 0 or n_failed == 0:
             ok, detail = False, ('no path takes a frame from the %s and fails its sent future: awaitables of frames '
                                  'never written stay pending after the connection is gone' % what)
